@@ -121,8 +121,8 @@ def spec_families():
                                              b'HTTP/1.1 100 Continue', b'HTTP/1.1 200 OK', b'HTTP/1.1 204 No Content', b'HTTP/1.1 301 Moved',
                                              b'HTTP/1.1 400 Bad Request', b'HTTP/1.1 404 Not Found', b'HTTP/1.1 426 Upgrade Required',
                                              b'HTTP/1.1 500 Oops', b'HTTP/1.1 1010 x', b'HTTP/1.1 101abc x', b'HTTP/1.1 1015 x', b'HTTP/1.1 101.5 x', b'HTTP/1.1 10 x', b'HTTP/1.1 abc Nope', b'HTTP/1.1', b'',
-                                             b'HTTP/1.1 -101 neg', b'HTTP/1.1 101.0 float')]
-    fam['upgrade'] = [{'upgrade': u} for u in (None, b'h2c', b'websocketx', b'web socket', b'', b'websocket ')]
+                                             b'HTTP/1.1 -101 neg', b'HTTP/1.1 101.0 float', b'HTTP/1.1 404 {x} {0} {', b'HTTP/1.1 {} {}', b'HTTP/1.1 503 %s %(x)s')]
+    fam['upgrade'] = [{'upgrade': u} for u in (None, b'h2c', b'websocketx', b'web socket', b'', b'websocket ', b'{}', b'{0}', b'{', b'websocket}', b'TLS/1.0, {x}', b'%s %d')]
     fam['size'] = [{'size': 16383}, {'size': 16384}, {'size': 16385}, {'size': 16386}, {'size': 20000}, {'size': 40000},
                    {'unterminated': 10}, {'unterminated': 16384}, {'unterminated': 17000}, {'unterminated': 40000},
                    {'size': 16384, 'lines': True}, {'size': 16385, 'lines': True}, {'size': 24000, 'lines': True},
@@ -137,7 +137,7 @@ def spec_families():
         {'extra': [b'Sec-WebSocket-Extensions: permessage-deflate ; server_max_window_bits = 9 ;client_no_context_takeover'], 'deflate': True},
     ] + [
         {'extra': [b'Sec-WebSocket-Extensions: permessage-deflate; ' + prm], 'deflate': True}
-        for prm in (b'server_max_window_bits=7', b'server_max_window_bits=16', b'client_max_window_bits=0', b'server_max_window_bits=abc',
+        for prm in (b'client_max_window_bits', b'server_max_window_bits', b'server_no_context_takeover; client_max_window_bits', b'server_max_window_bits=7', b'server_max_window_bits=16', b'client_max_window_bits=0', b'server_max_window_bits=abc',
                     b'server_max_window_bits=', b'client_max_window_bits="10"', b'server_max_window_bits=-8', b'server_max_window_bits=1e1',
                     b'server_max_window_bits=15; server_max_window_bits=15', b'x_unknown_parameter', b'server_no_context_takeover=1',
                     b'client_max_window_bits=15.0', b'server_max_window_bits=\xc2\xb9\xc2\xb2', b'server_max_window_bits=\xd9\xa9')
